@@ -33,7 +33,7 @@ BOUNDS = {
     "C07": lambda t: {"histories": f"{_q(t, 40, 600)} random histories of 3..13 operations over write / large write / failing write / flush / write_block / reopen for append; random codec, sync_interval in 1, 10, 50, 16000"},
     "C08": lambda t: {"writer schemas": "curated + trees <= 2 + by-reference pools", "reader schemas": f"single evolution steps at every position ({_q(t, '<= 30 sampled per schema', 'all')})",
                       "data": f"<= {_q(t, 6, 20)} values per writer schema"},
-    "C09": lambda t: {"unions": "18 hand-written unions + by-name variants", "data": "branch data + cross-branch values, every (name, value) hint, every '-type' hint incl. wrong ones",
+    "C09": lambda t: {"unions": "21 hand-written unions (incl. primitives spelled as objects) + by-name variants", "data": "branch data + cross-branch values, every (name, value) hint, every '-type' hint incl. wrong ones",
                       "options": "disable_tuple_notation x return_record_name / return_named_type and their overrides"},
     "C10": lambda t: {"schemas": f"curated + trees <= {_q(t, 2, 3)} + unions + nested-hint records", "data": f"conforming (<= {_q(t, 25, 'all')} per schema) + 16 single mutations of the first 6 + nested hints",
                       "modes": "raise_errors x strict x disable_tuple_notation; writer agreement; validation gate"},
